@@ -320,11 +320,16 @@ func bookThroughFind(c *harness.Check) []string {
 	}
 	// (1) the two bundled books on every position within d plies of the start position
 	sb, bb := sargon.NewBook(), bernstein.NewBook()
-	depth := c.Pick(3, 4)
+	depth := c.Pick(4, 5)
 	var walk func(p *ref.Pos, d int, path string)
 	walk = func(p *ref.Pos, d int, path string) {
 		check("sargon", func(f string) []board.Move { m, _ := sb.Find(ctx, f); return m }, p, path)
 		check("bernstein", func(f string) []board.Move { m, _ := bb.Find(ctx, f); return m }, p, path)
+		// the same placement with the OTHER side to move (a set-up position, or a tempo lost somewhere)
+		if q := (&ref.Pos{Sq: p.Sq, Castle: p.Castle, EP: -1, White: !p.White}); corpus.Valid(q) {
+			check("sargon", func(f string) []board.Move { m, _ := sb.Find(ctx, f); return m }, q, path+" (other side to move)")
+			check("bernstein", func(f string) []board.Move { m, _ := bb.Find(ctx, f); return m }, q, path+" (other side to move)")
+		}
 		if d == 0 {
 			return
 		}
@@ -361,6 +366,11 @@ func bookThroughFind(c *harness.Check) []string {
 		return append(out, "generic book: NewBook rejected legal lines: "+err.Error())
 	}
 	c.SetExtra("generic_book_lines", len(lines))
+	// the positions asked about also arise by single pawn steps (the same placement as a book
+	// position, but without its en passant target)
+	for _, t := range []string{"e2e3", "e3e4", "d2d3", "d3d4", "d7d6", "d6d5", "e6e5", "f7f6", "f6f5", "c7c6", "c6c5"} {
+		alphabet[t] = true
+	}
 	var walk2 func(p *ref.Pos, d int, path string)
 	walk2 = func(p *ref.Pos, d int, path string) {
 		check("generic book", func(f string) []board.Move { m, _ := gb.Find(ctx, f); return m }, p, path)
@@ -382,7 +392,7 @@ func bookThroughFind(c *harness.Check) []string {
 
 func checkC20(c *harness.Check) {
 	mustAnchors(c)
-	c.Rule = "every node WITH ITS HISTORY of push-sequence walks from all seeds (the heuristics read last moves, castled flags, moved pieces, move number) plus every K+X v K placement (quick: white king in the a1-d1-d4 triangle) and the back-rank-check family (boxed king checked by a rook from every square, one own piece on every square: many positions with a single legal reply): all evaluations finite without panic; generic material / TUROCHAMP / TUROCHAMP material / BERNSTEIN (factor 20,1,0) equal on the colour-mirrored twin game; FindPlausibleMoves legal with exact metadata and duplicate-free; PlausibleMoveTable{1,3,7} selects <= limit and >= 1; SkipUnderPromotions keeps exactly the non-under-promotions and >= 1; ConsiderableMovesOnly (evaluated post-move like the search) equals the four rules read on the reference model; every entry of both opening books (private map read by reflection) legal in its keyed position and returned by Find; through the public face: whatever Find returns on any position within 3-4 plies of the start (bundled books) / reachable by any move order over an opening alphabet with e.p. captures and transpositions (generic NewBook built from all lines of <= 5 moves) is legal in that position. distinct_nontrivial = distinct (seed, selected-plausible-count at limit 7, #considerable, in-check) classes + book entries"
+	c.Rule = "every node WITH ITS HISTORY of push-sequence walks from all seeds (the heuristics read last moves, castled flags, moved pieces, move number) plus every K+X v K placement (quick: white king in the a1-d1-d4 triangle) and the back-rank-check family (boxed king checked by a rook from every square, one own piece on every square: many positions with a single legal reply): all evaluations finite without panic; generic material / TUROCHAMP / TUROCHAMP material / BERNSTEIN (factor 20,1,0) equal on the colour-mirrored twin game; FindPlausibleMoves legal with exact metadata and duplicate-free; PlausibleMoveTable{1,3,7} selects <= limit and >= 1; SkipUnderPromotions keeps exactly the non-under-promotions and >= 1; ConsiderableMovesOnly (evaluated post-move like the search) equals the four rules read on the reference model; every entry of both opening books (private map read by reflection) legal in its keyed position and returned by Find; through the public face: whatever Find returns on any position within 4-5 plies of the start, and on the same placement with the other side to move (bundled books) / reachable by any move order over an opening alphabet with e.p. captures and transpositions (generic NewBook built from all lines of <= 5 moves; the query walk also takes single pawn steps, which reach book placements without their e.p. target) is legal in that position. distinct_nontrivial = distinct (seed, selected-plausible-count at limit 7, #considerable, in-check) classes + book entries"
 	for _, m := range bookOracle(c) {
 		c.Violation("C20/book "+m, m, "C20/book", nil)
 	}
